@@ -5,3 +5,5 @@ import XProofs.Properties.C10
 #print axioms Properties.C10.C10_weight_limits
 #print axioms Properties.C10.C10_inactive_knob_untouched
 #print axioms Properties.C10.C10_disabled_knob_never_changed
+#print axioms Properties.C10.C10_rows_within_limits
+#print axioms Properties.C10.C10_rows_within_limits_active
